@@ -13,6 +13,10 @@ CHECKS = {
    text="Lean theorems over all file contents: numbering+frame (C13_numbering_frame), end of file (C13_eof), idempotence (C13_idempotent; hypotheses: digits-only rule id, no line with both keys, no CR CR LF — the last is known finding D22 with a decide-proved witness), --check (C13_check_iff). "
         "Tie: util.processYaml (real code, in-process via verif hook) vs the compiled model on generated YAML files, byte-exact; renumber-tests binary on sandbox trees for check/write behaviour.",
    design="§7 C13", technique="Lean 4 proof (list induction) on a hand-written model + differential correspondence with the Go code"),
+ "C09": dict(
+   text="Lean theorems over all file contents: C09_idempotent (formatFile out = ok out whenever formatFile b = ok out — for every file without `\\r\\r` line ends, which is known finding D22), built from per-directive re-emission lemmas (processLine_reemit: every line the formatter writes is recognised again as the same directive with the same arguments at the same indentation, for block start/end, flags/prefix/suffix, define, include, include-except and plain lines; formatLines_reemit; processLine_good: no line break or trailing CR is invented), C09_canonical_frame (header, one empty line, body without trailing empty lines, exactly one final newline), processLine_indent / processLine_flags_col0 / processLine_none_iff (indentation bookkeeping), C09_check_iff (--check succeeds iff formatting is the identity and the lint is silent) and C09_error_writes_nothing. "
+        "Tie: processLine, processFile (real code via hooks) and every directive pattern of regex/definitions.go alone vs the compiled model on pattern-directed line material, byte-exact; format / format --check binary on sandbox trees (format twice, format then check, headers, trailing lines, CRLF).",
+   design="§7 C09", technique="Lean 4 proof (re-emission lemmas per directive, list induction, scan/unlines round trip) + differential correspondence with the Go code"),
  "C14": dict(
    text="Lean theorems: for every marker pattern on its own and for all lines, the last invocation wins (C14_header_last_wins, C14_year_last_wins, C14_secrule_ver_last_wins, C14_signature_last_wins); lines without marker characters are unchanged (C14_frame); per-line laws lift to whole files (updateRules_last_wins_of_line, hypothesis: no CR CR LF = D22). "
         "Not yet proved: the setup-version pattern alone and the composition of the five patterns on lines carrying several marker kinds — those are covered by the correspondence and the sequence oracle only. "
